@@ -203,9 +203,11 @@ def seg_close(s1, s2, tol):
         elif abs(a - b) > tol: return False
     return True
 
-def judge_path(p):
-    """C09 on one command list: returns list of (law, expected, observed)"""
+def judge_path(p, exact=True):
+    """C09 on one command list: returns list of (law, expected, observed). exact=False: the input is off the dyadic lattice
+    (float rounding and the 1e-9 snap are in play), the laws that are exact equalities are taken within 1e-8 instead"""
     out = []
+    same = (lambda g, w: g == w) if exact else (lambda g, w: len(g) == len(w) and all(seg_close(a, b, F(1, 10**8)) for a, b in zip(g, w)))
     base = pathsem.interp(p)
     d = pathsem.fmt(p)
     def run(op, *a):
@@ -229,7 +231,7 @@ def judge_path(p):
         got = pathsem.interp(q)
         sh = lambda pt: (pt[0] + F(3, 2), pt[1] - 2)
         want = [tuple(sh(x) if isinstance(x, tuple) else x for x in s) for s in base]
-        if got != want: out.append(('move shifts the curve', want, got))
+        if not same(got, want): out.append(('move shifts the curve', want, got))
     except Exception as ex: out.append(('move raises', 'a path', repr(ex)))
     # subpaths: re-reading the pieces one after another gives the same curve
     try:
@@ -245,7 +247,7 @@ def judge_path(p):
                 if sg[0] == 'move' and out_ and out_[-1][0] == 'close' and out_[-1][2] == sg[1]: continue
                 out_.append(sg)
             return out_
-        if norm(got) != norm(base): out.append(('subpaths split the same curve into independent pieces', base, got))
+        if not same(norm(got), norm(base)): out.append(('subpaths split the same curve into independent pieces', base, got))
     except Exception as ex: out.append(('subpaths raises', 'pieces', repr(ex)))
     # arcs_to_cubics / as_cmd_seq: same segment structure and end points; no arcs left; only MLQCZ
     for op in ('arcs_to_cubics', 'as_cmd_seq'):
@@ -309,6 +311,37 @@ def judge_path(p):
     except Exception as ex: out.append(('round_floats raises', 'a path', repr(ex)))
     return out
 
+def near_closing_paths():
+    """a segment of every drawing letter, absolute and relative, that ends within 1e-9 of its subpath start without
+    being on it (what float noise produces; here with exact offsets): the rewrites snap it onto the start"""
+    out = []
+    e1, e2 = F(1, 10**10), F(-2, 10**10)
+    sx, sy = F(1), F(1)
+    # ... and segments that end NEAR the start but farther than 1e-9 away (1e-6, 5e-4): those must be left where they are
+    for eps in ((e1, e2), (-e1, F(0)), (F(0), e1), (F(1, 10**6), F(-1, 10**6)), (F(5, 10**4), F(3, 10**4)), (F(-5, 10**4), F(0)), (F(0), F(5, 10**4))):
+        ex, ey = sx + eps[0], sy + eps[1]                    # where the closing segment ends
+        for L in 'LHVCSQTA':
+            if L == 'H':
+                if eps[1] != 0: continue
+                pre = [('M', [sx, sy]), ('L', [F(4), sy])]; cur = (F(4), sy)
+            elif L == 'V':
+                if eps[0] != 0: continue
+                pre = [('M', [sx, sy]), ('L', [sx, F(3)])]; cur = (sx, F(3))
+            else:
+                pre = [('M', [sx, sy]), ('L', [F(4), sy]), ('Q', [F(5), F(2), F(4), F(3)])]; cur = (F(4), F(3))
+            absargs = {'L': [ex, ey], 'H': [ex], 'V': [ey], 'C': [F(3), F(4), F(0), F(2), ex, ey], 'S': [F(0), F(2), ex, ey],
+                       'Q': [F(2), F(4), ex, ey], 'T': [ex, ey], 'A': [F(2), F(3), F(0), F(0), F(1), ex, ey]}[L]
+            xs, ys = pathsem_coords(L)
+            rel = [v - (cur[0] if k in xs else cur[1] if k in ys else 0) for k, v in enumerate(absargs)]
+            for cmd in ((L, absargs), (L.lower(), rel)):
+                for tail in ([], [('Z', [])], [('z', []), ('l', [F(2), F(2)])]):
+                    out.append(pre + [cmd] + tail)
+    return out
+
+def pathsem_coords(L):
+    return {'L': ([0], [1]), 'H': ([0], []), 'V': ([], [0]), 'C': ([0, 2, 4], [1, 3, 5]), 'S': ([0, 2], [1, 3]), 'Q': ([0, 2], [1, 3]),
+            'T': ([0], [1]), 'A': ([5], [6])}[L]
+
 def search(ctx, broken, disagreements):
     found, n = [], 0
     cands = []
@@ -321,9 +354,10 @@ def search(ctx, broken, disagreements):
     rng = ctx.rng
     cands += [rnd_path(rng, rng.randint(3, 6)) for _ in range(ctx.n(300, 5000))]
     seen = set()
-    for p in cands:
+    nc = near_closing_paths()
+    for p in nc + cands:
         n += 1
-        for law, exp, obs in judge_path(p):
+        for law, exp, obs in judge_path(p, exact=(n > len(nc))):
             key = law
             if key in seen: continue
             seen.add(key)
@@ -353,6 +387,7 @@ def replay(ctx, w):
         v = judge_shape(w['shape'], w['attrs'])
         return {'fails': v is not None, 'detail': v}
     p = pathsem.parse_simple(w['d'], num=lambda x: F(float(x)))
-    vs = judge_path(p)
+    on_lattice = all(x.denominator <= 1024 for _, a in p for x in a)
+    vs = judge_path(p, exact=on_lattice)
     if 'law' in w: vs = [v for v in vs if v[0] == w['law']]
     return {'fails': bool(vs), 'detail': show(jsonable(vs))[:3]}
